@@ -278,6 +278,14 @@ def run_case(case):
                     crop.sow_combos(combos, shuffle=case.get("shuffle",
                                                              False),
                                     verbosity=0)
+            elif case.get("case_dicts"):
+                # the cases written as dicts, their keys in varying order
+                dcs = []
+                for i_, c_ in enumerate(cases_in):
+                    it_ = list(zip(case_args, c_))
+                    r_ = (i_ + 1) % len(it_)
+                    dcs.append(dict(it_[r_:] + it_[:r_]))
+                crop.sow_cases(None, dcs, combos=sub_combos, verbosity=0)
             else:
                 crop.sow_cases(tuple(case_args), cases_in,
                                combos=sub_combos, verbosity=0)
@@ -495,7 +503,8 @@ def strategy(draw):
             "init_full": draw(st.sampled_from([False, True])),
             "grow_workers": draw(st.sampled_from([False, False, False,
                                                   True])),
-            "sibling": draw(st.sampled_from([False, False, True]))}
+            "sibling": draw(st.sampled_from([False, False, True])),
+            "case_dicts": draw(st.booleans())}
     if case["dname"].endswith(".dmp"):
         case["engine"] = "joblib"
     if farmer == "sampler":
